@@ -1,0 +1,9 @@
+//go:build !verif
+
+package updog
+
+// Verification hooks (see /verif). With the "verif" build tag off they are no-ops.
+
+func verifHashOverride(k, v string) (uint64, bool) { return 0, false }
+
+func verifPoint(name string) {}
